@@ -619,13 +619,13 @@ pub fn worker(prop: &str, tier: &str) {
         if prebuild && (h.len() < 2 || h.len() > 8 || (slow > 0 && tier != "thorough" && (h.len() > 2 || !is_slow(&h[0])))) {
             continue;
         }
-        let mut result = run_history_forked(w, &h, prop, 300 + 5 * slow, prebuild);
+        let mut result = run_history_forked(w, &h, prop, 300 + 5 * slow + h.len() as u64 / 20, prebuild);
         for _ in 0..5 {
             match &result {
                 Ok(rep) if rep["starved"].as_bool().unwrap_or(false) => {
                     w.count("histories.rerun_because_starved", 1);
                     std::thread::sleep(std::time::Duration::from_millis(500));
-                    result = run_history_forked(w, &h, prop, 300 + 5 * slow, prebuild);
+                    result = run_history_forked(w, &h, prop, 300 + 5 * slow + h.len() as u64 / 20, prebuild);
                 }
                 _ => break,
             }
